@@ -31,6 +31,12 @@ def directed():
         [D(b"web", [h], [(b"ta:80", True)]), rd(b"web", [(b"tb:80", True)]), {"op": "rollout_set", "name": b"web", "pct": 100, "allow": [b"alice"]},
          rd(b"web", [(b"te_1:80", False)]), {"op": "rollout_set", "name": b"web", "pct": 50, "allow": [b"alice"]},
          rd(b"web", [(b"tc:8080", True), (b"tg_1:80", False)]), D(b"api", [g], [(b"td:80", True)])],
+        # a refused redeploy that names the SAME targets with the same target options as the live service (only the hosts differ,
+        # one of them owned by another service): whatever the failure path cleans up, the live targets must go on being probed
+        [D(b"web", [h], [(b"ta:80", True), (b"tb:80", True)]), D(b"api", [g], [(b"td:80", True)]),
+         D(b"web", [h, g], [(b"ta:80", True), (b"tb:80", True)]), D(b"web", [g], [(b"ta:80", True), (b"tb:80", True)]),
+         dict(D(b"web", [h], [(b"ta:80", True), (b"tb:80", True)]), pages="bad"), rd(b"web", [(b"tc:8080", True)]),
+         D(b"web", [h, g], [(b"ta:80", True), (b"tb:80", True)]), rd(b"web", [(b"tc:8080", True), (b"tx_1:80", False)])],
     ]
 
 
